@@ -77,8 +77,15 @@ def conformance(rep, tier, tabs, what, n_quick, prop_prefix, threads=(1,), scale
     if sel:
         s = sel[0]
         rep.sample({k: s[k] for k in ("nr", "nt", "nc", "dir", "h", "k", "r0", "arr", "art", "det", "beta")} | {"row_of_node_(1,0)": s["rows"][s["nt"]], "lines": s["lines"]})
-    for (th, scale) in [(th, 1.0) for th in threads] + [(threads[-1], s) for s in scales if s != 1.0]:
-        rc, recs, out = vlib.run_driver(exe, [path, what, th, repr(scale)], timeout=3300, env={"OMP_NUM_THREADS": str(th)})
+    # team sizes beyond the second one run on the first n_quick instances only (16 threads on a few dozen nodes are slow on a
+    # busy machine); the scaled families run with the second team size
+    small = path + ".small"
+    with open(small, "w") as f:
+        for c in sel[:n_quick]:
+            f.write(json.dumps(c, separators=(",", ":")) + "\n")
+    passes = [(th, 1.0, path if i < 2 else small) for i, th in enumerate(threads)] + [(threads[min(1, len(threads) - 1)], s, path) for s in scales if s != 1.0]
+    for (th, scale, path) in passes:
+        rc, recs, out = vlib.run_driver(exe, [path, what, th, repr(scale)], timeout=3300, env={"OMP_NUM_THREADS": str(th), "OMP_WAIT_POLICY": "PASSIVE"})
         summ = [x for x in recs if x.get("summary")]
         if rc != 0 or not summ:
             try:
